@@ -301,6 +301,7 @@ impl Engine {
         self.m.l = l;
         self.m.rewards = r;
         self.m.halted = false;
+        self.m.ownerless_from_resume = l == 0 && n > 0;
         self.totals_prop = "C10";
     }
 
@@ -739,6 +740,9 @@ impl Engine {
                 }
                 if k == b"config" && json_of(&before, b"config")["stopped"] != json_of(&after, b"config")["stopped"] {
                     self.v("C10", "upgrade_keeps_halted_flag", "the halted flag changed through a migration".into());
+                }
+                if k.starts_with(&ns_key("batches")) || k.starts_with(&ns_key("unstake_requests")) {
+                    self.v("C05", "upgrade_keeps_batches_and_requests", format!("the migration rewrote {} from {} to {}: pro-rata payouts are computed from these records", String::from_utf8_lossy(&k[2..]).chars().filter(|c| !c.is_control()).collect::<String>(), json_of(&before, &k), json_of(&after, &k)));
                 }
             }
         }
